@@ -567,6 +567,11 @@ func renderUpdates(s Script, id ids) []*api.ContainerUpdate {
 			for _, f := range u.Fields {
 				setResField(cu.Linux.Resources, f, famW(fieldFam(f), u.ValOf, w, false))
 			}
+			if hf := hugeField(u); u.SelfDup && u.Ignore && hf != "" {
+				// the same page size once more, with another limit
+				cu.Linux.Resources.HugepageLimits = append(cu.Linux.Resources.HugepageLimits,
+					&api.HugepageLimit{PageSize: strings.TrimPrefix(hf, "huge/"), Limit: 7})
+			}
 		}
 		out = append(out, cu)
 	}
